@@ -514,76 +514,82 @@ func (a *Analysis) ruleF3() {
 			return ok && gv.G == R
 		}
 		for _, W := range a.Gate2.passed() {
-			W := W
-			ctx := a.sizeCtx("W", &W, a.Gate2, lcs[0])
-			e := a.eval(fn, ctx)
-			var reads []ReadInfo
-			for _, ri := range e.Reads {
-				if usesR(ri.Reader) {
-					reads = append(reads, ri)
+			for _, lc := range lcs {
+				W := W
+				ctx := a.sizeCtx("W", &W, a.Gate2, lc)
+				e := a.eval(fn, ctx)
+				var reads []ReadInfo
+				for _, ri := range e.Reads {
+					if usesR(ri.Reader) {
+						reads = append(reads, ri)
+					}
 				}
-			}
-			for _, c := range e.Calls {
-				if strings.HasPrefix(c.Callee, "invoke:") && usesR(c.Recv) {
-					r.Bad("F3d", fk+"/read-call", a.P.InstrPos(c.Instr), ctx.Name, "%s calls %s on the source directly: a single Read may return fewer bytes than requested; use io.ReadFull", fk, strings.TrimPrefix(c.Callee, "invoke:"))
+				for _, c := range e.Calls {
+					if strings.HasPrefix(c.Callee, "invoke:") && usesR(c.Recv) {
+						r.Bad("F3d", fk+"/read-call", a.P.InstrPos(c.Instr), ctx.Name, "%s calls %s on the source directly: a single Read may return fewer bytes than requested; use io.ReadFull", fk, strings.TrimPrefix(c.Callee, "invoke:"))
+					}
 				}
-			}
-			if len(reads) != 1 {
-				r.Bad("F3d", fk+"/read-call", pos, ctx.Name, "expected exactly one io.ReadFull / io.ReadAtLeast on the source per call, found %d", len(reads))
-				continue
-			}
-			ri := reads[0]
-			rdp = a.P.InstrPos(ri.Instr)
-			switch {
-			case !ri.Full:
-				r.Bad("F3d", fk+"/read-call", rdp, ctx.Name, "the source is read through %s with a minimum that does not guarantee a completely filled buffer", ri.Callee)
-			default:
-				r.OK("F3d", fk+"/read-call", rdp, ctx.Name, "%s(%s, buf) fills the buffer completely or fails", ri.Callee, R.Name())
-			}
-			if !ri.Whole || !ri.Fresh {
-				r.Bad("F3c", fk+"/buffer", rdp, ctx.Name, "the read target is not a whole freshly made buffer")
-			} else {
-				r.OK("F3c", fk+"/buffer", rdp, ctx.Name, "the read fills the whole make([]byte, n) buffer")
-			}
-			// (e) exits
-			okE := true
-			for _, x := range topExits(e, fn) {
-				if len(x.Vals) != 2 {
+				if len(reads) != 1 {
+					r.Bad("F3d", fk+"/read-call", pos, ctx.Name, "expected exactly one io.ReadFull / io.ReadAtLeast on the source per call, found %d", len(reads))
 					continue
 				}
-				ev, _ := x.Vals[1].(ErrV)
-				xp := a.P.InstrPos(x.Ret)
+				ri := reads[0]
+				rdp = a.P.InstrPos(ri.Instr)
 				switch {
-				case ev.Kind == ekNil:
-					// success: F3c below shows the encoder consumed exactly the bytes read, which is only
-					// the case on the path where the read is known to have succeeded
-				case ev.Kind == ekFrom:
-					s, _ := x.Vals[0].(StrV)
-					if !ev.NonNil {
-						r.Bad("F3e", fk+"/read-error", xp, ctx.Name, "this exit returns the error of %s without having tested it alone: it is reachable whether or not the read failed", ev.From)
-						okE = false
-					} else if s.Kind != skConst || s.S != "" {
-						r.Bad("F3e", fk+"/read-error", xp, ctx.Name, "after a failed read %s returns %v instead of the empty string", fk, x.Vals[0])
-						okE = false
-					}
-				case ev.Kind == ekFresh || ev.Kind == ekSentinel || ev.Kind == ekWrap:
-					s, _ := x.Vals[0].(StrV)
-					if s.Kind != skConst || s.S != "" {
-						r.Bad("F3e", fk+"/read-error", xp, ctx.Name, "a failure exit returns %v instead of the empty string", x.Vals[0])
-						okE = false
-					}
+				case !ri.Full:
+					r.Bad("F3d", fk+"/read-call", rdp, ctx.Name, "the source is read through %s with a minimum that does not guarantee a completely filled buffer", ri.Callee)
 				default:
-					r.Bad("F3e", fk+"/read-error", xp, ctx.Name, "an exit past the read returns an error that is not certainly nil or non-nil (%v): the outcome of the read does not decide it", ev)
-					okE = false
+					r.OK("F3d", fk+"/read-call", rdp, ctx.Name, "%s(%s, buf) fills the buffer completely or fails", ri.Callee, R.Name())
 				}
-			}
-			if okE {
-				r.OK("F3e", fk+"/read-error", rdp, ctx.Name, "the read error is tested alone; the failure path returns (\"\", non-nil error)")
+				if !ri.Whole || !ri.Fresh {
+					r.Bad("F3c", fk+"/buffer", rdp, ctx.Name, "the read target is not a whole freshly made buffer")
+				} else {
+					r.OK("F3c", fk+"/buffer", rdp, ctx.Name, "the read fills the whole make([]byte, n) buffer")
+				}
+				// (e) exits
+				okE := true
+				for _, x := range topExits(e, fn) {
+					if len(x.Vals) != 2 {
+						continue
+					}
+					ev, _ := x.Vals[1].(ErrV)
+					xp := a.P.InstrPos(x.Ret)
+					switch {
+					case ev.Kind == ekNil:
+						// success: F3c below shows the encoder consumed exactly the bytes read, which is only
+						// the case on the path where the read is known to have succeeded
+					case ev.Kind == ekFrom:
+						s, _ := x.Vals[0].(StrV)
+						if !ev.NonNil {
+							r.Bad("F3e", fk+"/read-error", xp, ctx.Name, "this exit returns the error of %s without having tested it alone: it is reachable whether or not the read failed", ev.From)
+							okE = false
+						} else if s.Kind != skConst || s.S != "" {
+							r.Bad("F3e", fk+"/read-error", xp, ctx.Name, "after a failed read %s returns %v instead of the empty string", fk, x.Vals[0])
+							okE = false
+						}
+					case ev.Kind == ekFresh || ev.Kind == ekSentinel || ev.Kind == ekWrap:
+						s, _ := x.Vals[0].(StrV)
+						if s.Kind != skConst || s.S != "" {
+							r.Bad("F3e", fk+"/read-error", xp, ctx.Name, "a failure exit returns %v instead of the empty string", x.Vals[0])
+							okE = false
+						}
+					default:
+						r.Bad("F3e", fk+"/read-error", xp, ctx.Name, "an exit past the read returns an error that is not certainly nil or non-nil (%v): the outcome of the read does not decide it", ev)
+						okE = false
+					}
+				}
+				if okE {
+					r.OK("F3e", fk+"/read-error", rdp, ctx.Name, "the read error is tested alone; the failure path returns (\"\", non-nil error)")
+				}
 			}
 		}
 		// nothing touches the source for rejected counts
 		okR := true
-		for _, ctx := range a.rejectCtxs("W", a.Gate2, lcs[0]) {
+		var rejCtxs []*Ctx
+		for _, lc := range lcs {
+			rejCtxs = append(rejCtxs, a.rejectCtxs("W", a.Gate2, lc)...)
+		}
+		for _, ctx := range rejCtxs {
 			e := a.eval(fn, ctx)
 			for _, ri := range e.Reads {
 				if usesR(ri.Reader) {
@@ -608,37 +614,36 @@ func (a *Analysis) ruleF3() {
 		okC := true
 		n := 0
 		for _, W := range a.Gate2.passed() {
-			W := W
-			if len(lcs) == 0 {
-				break
-			}
-			ctx := a.sizeCtx("W", &W, a.Gate2, lcs[0])
-			e := a.eval(fn, ctx)
-			for _, c := range e.Calls {
-				if c.Callee != "invoke:hash.Write" && c.Callee != "crypto/sha256.Sum256" && c.Callee != "(*math/big.Int).SetBytes" {
-					continue
-				}
-				var b BytesV
-				if c.Callee == "(*math/big.Int).SetBytes" {
-					b, _ = c.Args[1].(BytesV)
-				} else {
-					b, _ = c.Args[0].(BytesV)
-				}
-				if b.Obj != nil {
-					if bc, ok := c.State[b.Obj].(BufC); ok {
-						if bc.B.Pending != nil {
-							bc.B.HasVal, bc.B.Src = false, "⊤: buffer used although the read may have failed"
-						}
-						b = bc.B
+			for _, lc := range lcs {
+				W := W
+				ctx := a.sizeCtx("W", &W, a.Gate2, lc)
+				e := a.eval(fn, ctx)
+				for _, c := range e.Calls {
+					if c.Callee != "invoke:hash.Write" && c.Callee != "crypto/sha256.Sum256" && c.Callee != "(*math/big.Int).SetBytes" {
+						continue
 					}
-				} else if c.Callee == "(*math/big.Int).SetBytes" {
-					continue // not the buffer (e.g. the digest byte)
-				}
-				n++
-				want := "read(val:" + R.Name() + ")"
-				if !b.HasVal || b.Src != want || !b.LenKnown || !b.Val.Equal(SymL("E", 8*b.Len.A)) {
-					r.Bad("F3c", fk+"/encoder-input", a.P.InstrPos(c.Instr), ctx.Name, "the encoder consumes %v, not exactly the bytes delivered by the source", b)
-					okC = false
+					var b BytesV
+					if c.Callee == "(*math/big.Int).SetBytes" {
+						b, _ = c.Args[1].(BytesV)
+					} else {
+						b, _ = c.Args[0].(BytesV)
+					}
+					if b.Obj != nil {
+						if bc, ok := c.State[b.Obj].(BufC); ok {
+							if bc.B.Pending != nil {
+								bc.B.HasVal, bc.B.Src = false, "⊤: buffer used although the read may have failed"
+							}
+							b = bc.B
+						}
+					} else if c.Callee == "(*math/big.Int).SetBytes" {
+						continue // not the buffer (e.g. the digest byte)
+					}
+					n++
+					want := "read(val:" + R.Name() + ")"
+					if !b.HasVal || b.Src != want || !b.LenKnown || !b.Val.Equal(SymL("E", 8*b.Len.A)) {
+						r.Bad("F3c", fk+"/encoder-input", a.P.InstrPos(c.Instr), ctx.Name, "the encoder consumes %v, not exactly the bytes delivered by the source", b)
+						okC = false
+					}
 				}
 			}
 		}
@@ -945,6 +950,32 @@ func (a *Analysis) ruleS2() {
 					}
 					if eq {
 						seenClass["accept"] = true
+						// membership: the accept path is only reached when every looked-up token was found
+						if lc.Const != nil {
+							for _, c := range e.Calls {
+								if c.Callee != "lookup" {
+									continue
+								}
+								if k, ok := c.Args[1].(StrV); !ok || k.Kind != skTok {
+									continue
+								}
+								hit, inLoop := e.LoopHits[c.Instr]
+								if !inLoop {
+									if o := e.lkObj[c.Instr]; o != nil {
+										if cc, ok := x.State[o].(CellC); ok {
+											if b, ok := cc.V.(BoolV); ok && b.Known && b.Val {
+												hit = true
+											}
+										}
+									}
+								}
+								if hit {
+									r.OK("S2a", fk+"/membership", a.P.InstrPos(c.Instr), ctx.Name, "validation goes on only on the edge where the token was found in the map")
+								} else {
+									r.Bad("S2a", fk+"/membership", a.P.InstrPos(c.Instr), ctx.Name, "a token that is not in the list does not stop the validation: the looked-up index is used on a path where the word was not found (it is then 0, the first word)")
+								}
+							}
+						}
 						if ev.Kind == ekNil {
 							r.OK("S2a", key, xp, ctx.Name, "checksums equal ⇒ nil")
 						} else {
@@ -1059,14 +1090,14 @@ func (a *Analysis) ruleS3() {
 	}
 }
 
-
 // finishE1 copies the E1 obligations into per-use rule names, so that a property depends
 // only on the variables its own argument relies on:
-//   E1enc — variables the encoder evaluations read (lists, masks)
-//   E1val — variables the validator evaluations read, plus the lookup maps and their guards
-//   E1src — the randomness source
-//   E1lst — the word lists and the lookup maps
-//   E1str — variables Language.String reads
+//
+//	E1enc — variables the encoder evaluations read (lists, masks)
+//	E1val — variables the validator evaluations read, plus the lookup maps and their guards
+//	E1src — the randomness source
+//	E1lst — the word lists and the lookup maps
+//	E1str — variables Language.String reads
 func (a *Analysis) finishE1() {
 	relied := map[string]map[string]bool{"E1enc": {}, "E1val": {}, "E1str": {}, "E1src": {}, "E1lst": {}}
 	name := func(g *ssa.Global) string { return "var/" + g.Pkg.Pkg.Name() + "." + g.Name() }
@@ -1138,7 +1169,6 @@ func (a *Analysis) finishE1() {
 		}
 	}
 }
-
 
 // touchesPackageState: the function itself loads, stores or takes the address of a module global.
 func (a *Analysis) touchesPackageState(f *ssa.Function) bool {
